@@ -82,4 +82,17 @@ PROPS["C04"] = {
     "nontrivial_min_tokens": 20,
 }
 
+PROPS["C05"] = {
+    "level_text": "The hybrid Execute is transcribed branch by branch over the sub-models already tied to the code (metadata, exhaustive vector kinds, BM25, fusion); theorems: at most k results in descending fused-score order, empty filter match => empty result, unconfigured modality => error; the score / candidate-set clauses are decided per run by bit-exact comparison (float64) of every sampled search with the composed model plus the soundness oracle (ids inside the filter set and inside the per-modality top-k).",
+    "level_note": "Trusted: as C02/C03/C04. Ties at a per-modality cut or in RRF ranks make the fused answer order-dependent: those cases are compared for soundness only (counted as weak). HNSW as the vector sub-index is covered separately (C12).",
+    "correspondence": "hybrid_search_index.go ~ Model.Hybrid",
+    "nontrivial_min_tokens": 40, "sub_max_len": 20000,
+}
+PROPS["C06"] = {
+    "level_text": "Theorems: a failing hybrid add returns the unchanged state (all modalities); removal of an unknown id fails without effect and a successful removal is total; after Remove+Add the id is live again in every exhaustive vector kind and in BM25 with no stale entry / only the new text; metadata validates before mutating. The histories replayed against the code include failing adds in each sub-index position, removal of never-added ids and id re-use with a flush before, between or after, for the hybrid index and for each underlying index on its own.",
+    "level_note": "Trusted: as C05. Uniqueness of automatically generated ids is observed on the implementation (process-global atomic counter), HNSW re-add is covered under C12.",
+    "correspondence": "hybrid_search_index.go + *_index.go Add/Remove ~ Model.Hybrid / VecIndex / BM25 / Metadata",
+    "nontrivial_min_tokens": 40, "sub_max_len": 20000,
+}
+
 NOT_YET = {}
